@@ -1,1 +1,667 @@
-//! C40: not implemented yet.
+//! C40 — GPSd (SOCK) samples are validated before use.
+//!
+//! Engine E-IN (exhaustive enumeration of a datagram grammar) at two levels:
+//!
+//! (d) DIRECT: `deserialize_sample(recv_result, buf)` through the probe, over
+//!     recv results {Err, Ok(0..=64)} x magic {ok, each of the 32 single-bit corruptions}
+//!     x pulse alphabet x offset bit patterns x leap alphabet.
+//! (s) SOCKET: the same grammar as real datagrams of length 0..=64 sent over a real
+//!     `UnixDatagram` to the real `SockSourceTask` (spawned through its own `spawn`), with a
+//!     constant clock and a recording `SourceController`. A sentinel sample after every
+//!     datagram delimits what the task did with it (Unix datagrams between one sender and
+//!     one receiver are delivered in order).
+//!
+//! Oracle (from the statement + the gpsd wire format `struct sock_sample { struct timeval
+//! tv; double offset; int pulse; int leap; int _pad; int magic; }`, 40 bytes on LP64,
+//! magic 0x534f434b, `offset = real - clock` seconds):
+//!     measurement  <=>  length == 40 && magic ok && pulse == 0 && offset finite
+//!     measurement.receiver_ts == clock.now(), |sender_ts - receiver_ts| == |offset|
+//!     (the sign convention, offset = remote - local, belongs to C05: see c05.rs)
+//! and nothing ever panics / stalls the task.
+use std::collections::HashMap;
+use std::path::PathBuf;
+use std::sync::{Arc, RwLock};
+
+use ntp_proto::{
+    ClockId, Measurement, NtpClock, NtpDuration, NtpLeapIndicator, NtpTimestamp,
+    ObservableSourceTimedata, OneWaySource, PollInterval, SourceController,
+};
+
+use super::common::{self, Ctx};
+use crate::daemon::ntp_source::SourceChannels;
+use crate::daemon::sock_source::SockSourceTask;
+use crate::daemon::sock_source::verif_probe::gm as probe;
+
+// --- the gpsd wire format (independent of the code under test) -------------------------
+pub(super) const SAMPLE_SIZE: usize = 40;
+pub(super) const MAGIC: i32 = 0x534f_434b; // "SOCK"
+const MAX_LEN: usize = 64;
+const SENTINEL_OFFSET: f64 = 7777.25;
+
+pub(super) fn sample_bytes(offset_bits: u64, pulse: i32, leap: i32, magic: i32) -> [u8; SAMPLE_SIZE] {
+    let mut b = [0u8; SAMPLE_SIZE];
+    b[0..8].copy_from_slice(&0x66f5_887f_i64.to_le_bytes()); // tv_sec
+    b[8..16].copy_from_slice(&0x0004_8121_i64.to_le_bytes()); // tv_usec
+    b[16..24].copy_from_slice(&offset_bits.to_le_bytes());
+    b[24..28].copy_from_slice(&pulse.to_le_bytes());
+    b[28..32].copy_from_slice(&leap.to_le_bytes());
+    b[32..36].copy_from_slice(&[0xa5, 0x5a, 0xa5, 0x5a]); // padding: arbitrary
+    b[36..40].copy_from_slice(&magic.to_le_bytes());
+    b
+}
+
+/// A datagram of length `len` derived from a 40-byte sample: truncated, or extended with
+/// filler bytes.
+fn datagram(sample: &[u8; SAMPLE_SIZE], len: usize) -> Vec<u8> {
+    let mut v = Vec::with_capacity(len);
+    for i in 0..len {
+        v.push(if i < SAMPLE_SIZE { sample[i] } else { 0xaa ^ (i as u8) });
+    }
+    v
+}
+
+fn offsets(thorough: bool) -> Vec<u64> {
+    let mut v: Vec<f64> = vec![
+        0.0,
+        -0.0,
+        1e-9,
+        -1e-9,
+        0.5,
+        -0.5,
+        1.0,
+        -1.0,
+        318_975.704_798_661,
+        -86_400.0,
+        1_073_741_824.0,  // 2^30
+        2_147_483_647.0,  // 2^31 - 1
+        2_147_483_648.0,  // 2^31
+        -2_147_483_648.0, // -2^31
+        1e300,
+        -1e300,
+        f64::MAX,
+        f64::MIN,
+        f64::MIN_POSITIVE,
+        f64::from_bits(1),                     // smallest subnormal
+        -f64::from_bits(0x000f_ffff_ffff_ffff), // largest subnormal, negative
+    ];
+    if thorough {
+        for k in -40..=40 {
+            let x = (2.0f64).powi(k);
+            v.push(x);
+            v.push(-x);
+            v.push(x * 1.000_000_1);
+        }
+        v.extend([1e-3, -1e-3, 0.1, -0.1, 1e9, -1e9, 4_294_967_296.0, 1e18, -1e18, 123.456]);
+    }
+    let mut bits: Vec<u64> = v.into_iter().map(f64::to_bits).collect();
+    // non-finite patterns
+    bits.extend([
+        0x7ff0_0000_0000_0000, // +inf
+        0xfff0_0000_0000_0000, // -inf
+        0x7ff8_0000_0000_0000, // quiet NaN
+        0x7ff0_0000_0000_0001, // signalling NaN
+        0xfff8_0000_0000_0000, // negative quiet NaN
+        0x7ff8_dead_beef_cafe, // NaN with payload
+        0xffff_ffff_ffff_ffff, // all ones
+    ]);
+    bits
+}
+
+fn magics() -> Vec<i32> {
+    let mut v = vec![MAGIC];
+    for bit in 0..32 {
+        v.push(MAGIC ^ (1i32 << bit));
+    }
+    v
+}
+
+const LEAPS: [i32; 6] = [0, 1, 2, 3, 4, -1];
+
+#[derive(Clone, Copy, Debug)]
+struct Fields {
+    offset_bits: u64,
+    pulse: i32,
+    leap: i32,
+    magic: i32,
+}
+
+/// The statement's acceptance predicate; `Err(class suffix)` names the first failed condition.
+fn expected(len: Option<usize>, f: &Fields) -> Result<(), &'static str> {
+    match len {
+        None => return Err("io-error"),
+        Some(l) if l < SAMPLE_SIZE => return Err("short-datagram"),
+        Some(l) if l > SAMPLE_SIZE => return Err("oversize-datagram"),
+        _ => {}
+    }
+    if f.magic != MAGIC {
+        return Err("bad-magic");
+    }
+    if f.pulse != 0 {
+        return Err("pulse");
+    }
+    if !f64::from_bits(f.offset_bits).is_finite() {
+        return Err("nonfinite-offset");
+    }
+    Ok(())
+}
+
+fn failed_conditions(len: Option<usize>, f: &Fields) -> u32 {
+    (len != Some(SAMPLE_SIZE)) as u32
+        + (f.magic != MAGIC) as u32
+        + (f.pulse != 0) as u32
+        + (!f64::from_bits(f.offset_bits).is_finite()) as u32
+}
+
+// --- (d) direct level --------------------------------------------------------------------
+
+/// outcome classes of the direct level (vacuity counters): sample, io, slice, size, magic, pulse, other, panic
+static DIRECT_OUTCOMES: [std::sync::atomic::AtomicU64; 8] = [const { std::sync::atomic::AtomicU64::new(0) }; 8];
+const DIRECT_OUTCOME_NAMES: [&str; 8] = ["sample", "io", "slice", "size", "magic", "pulse", "other", "panic"];
+
+fn direct_case(ctx: &Ctx, claimed: Option<usize>, f: &Fields) -> String {
+    let buf = sample_bytes(f.offset_bits, f.pulse, f.leap, f.magic);
+    let trace = format!(
+        "d:{}:{}",
+        claimed.map_or("ioerr".to_string(), |c| c.to_string()),
+        common::hex(&buf)
+    );
+    let got = common::catch(|| probe::decode(claimed.ok_or(()), buf));
+    let want = expected(claimed, f);
+    let oc = match &got {
+        Ok(probe::Decoded::Sample { .. }) => 0,
+        Ok(probe::Decoded::Rejected(r)) => DIRECT_OUTCOME_NAMES.iter().position(|n| n == r).unwrap_or(6),
+        Err(_) => 7,
+    };
+    DIRECT_OUTCOMES[oc].fetch_add(1, std::sync::atomic::Ordering::Relaxed);
+    match (&got, want) {
+        (Err(p), _) => ctx.violation(
+            "C40:decode-panic",
+            format!("deserialize_sample panicked: {p}"),
+            trace.clone(),
+        ),
+        (Ok(probe::Decoded::Sample { offset_bits, pulse, leap, magic }), Ok(())) => {
+            if *offset_bits != f.offset_bits || *pulse != f.pulse || *leap != f.leap || *magic != f.magic {
+                ctx.violation(
+                    "C40:decoded-field-mismatch",
+                    format!("decoded {got:?} from fields {f:?}"),
+                    trace.clone(),
+                );
+            }
+        }
+        (Ok(probe::Decoded::Sample { .. }), Err(why)) => {
+            let class = if why == "oversize-datagram" || why == "short-datagram" {
+                "C40:wrong-size-accepted".to_string()
+            } else {
+                format!("C40:{why}-accepted")
+            };
+            ctx.violation(
+                &class,
+                format!(
+                    "deserialize_sample(recv={claimed:?}) returned a sample although {why} (offset {:?} = {:#018x}, pulse {}, magic {:#x})",
+                    f64::from_bits(f.offset_bits), f.offset_bits, f.pulse, f.magic
+                ),
+                trace.clone(),
+            );
+        }
+        (Ok(probe::Decoded::Rejected(r)), Ok(())) => ctx.violation(
+            "C40:valid-sample-rejected",
+            format!("well-formed sample rejected ({r}): {f:?}"),
+            trace.clone(),
+        ),
+        (Ok(probe::Decoded::Rejected(_)), Err(_)) => {}
+    }
+    format!("{got:?} want_accept={}", want.is_ok())
+}
+
+fn run_direct(ctx: &Ctx) {
+    let offs = offsets(!ctx.quick());
+    let mags = magics();
+    let pulses: [i32; 6] = [0, 1, -1, i32::MIN, 0x100, 0x0100_0000];
+    // claimed: index 0 = I/O error, 1..=65 = Ok(0..=64)
+    let radix = [MAX_LEN + 2, mags.len(), pulses.len(), offs.len(), LEAPS.len()];
+    let total: u64 = radix.iter().map(|r| *r as u64).product();
+    // canonical minimal witnesses first (sequential), so that the traces kept per class are
+    // the same on every run; the sweep below covers them again.
+    for bits in [0x7ff8_0000_0000_0000u64, 0x7ff0_0000_0000_0000, 0xfff0_0000_0000_0000] {
+        let f = Fields { offset_bits: bits, pulse: 0, leap: 0, magic: MAGIC };
+        let obs = direct_case(ctx, Some(SAMPLE_SIZE), &f);
+        ctx.inc("evaluations");
+        ctx.inc("direct_cases");
+        ctx.add("transitions", 1);
+        ctx.sample(format!("direct recv=Ok(40) offset={:?} -> {obs}", f64::from_bits(bits)));
+    }
+    common::par_for(total, 4096, |i| {
+        let mut x = i as usize;
+        let mut idx = [0usize; 5];
+        for k in (0..5).rev() {
+            idx[k] = x % radix[k];
+            x /= radix[k];
+        }
+        let claimed = if idx[0] == 0 { None } else { Some(idx[0] - 1) };
+        let f = Fields {
+            offset_bits: offs[idx[3]],
+            pulse: pulses[idx[2]],
+            leap: LEAPS[idx[4]],
+            magic: mags[idx[1]],
+        };
+        direct_case(ctx, claimed, &f);
+        if failed_conditions(claimed, &f) <= 1 {
+            ctx.distinct(common::hash_of(&("d", idx)));
+        }
+    });
+    ctx.add("evaluations", total);
+    ctx.add("direct_cases", total);
+    for (i, n) in DIRECT_OUTCOME_NAMES.iter().enumerate() {
+        ctx.set(&format!("direct_outcome_{n}"), DIRECT_OUTCOMES[i].load(std::sync::atomic::Ordering::Relaxed));
+    }
+    ctx.add("transitions", total);
+}
+
+// --- (s) socket level --------------------------------------------------------------------
+
+#[derive(Clone)]
+pub(super) struct FixedClock(pub(super) NtpTimestamp);
+
+impl NtpClock for FixedClock {
+    type Error = std::io::Error;
+    fn now(&self) -> Result<NtpTimestamp, Self::Error> {
+        Ok(self.0)
+    }
+    fn set_frequency(&self, _freq: f64) -> Result<NtpTimestamp, Self::Error> {
+        Ok(self.0)
+    }
+    fn get_frequency(&self) -> Result<f64, Self::Error> {
+        Ok(0.0)
+    }
+    fn step_clock(&self, _offset: NtpDuration) -> Result<NtpTimestamp, Self::Error> {
+        Ok(self.0)
+    }
+    fn disable_ntp_algorithm(&self) -> Result<(), Self::Error> {
+        Ok(())
+    }
+    fn error_estimate_update(&self, _e: NtpDuration, _m: NtpDuration) -> Result<(), Self::Error> {
+        Ok(())
+    }
+    fn status_update(&self, _l: NtpLeapIndicator) -> Result<(), Self::Error> {
+        Ok(())
+    }
+}
+
+struct Recorder {
+    tx: tokio::sync::mpsc::UnboundedSender<Measurement>,
+}
+
+impl SourceController for Recorder {
+    fn handle_measurement(&mut self, measurement: Measurement) {
+        self.tx.send(measurement).ok();
+    }
+    fn set_usable(&mut self, _usable: bool) {}
+    fn desired_poll_interval(&self) -> PollInterval {
+        PollInterval::from_byte(4)
+    }
+    fn observe(&self) -> ObservableSourceTimedata {
+        ObservableSourceTimedata::default()
+    }
+}
+
+fn t0() -> NtpTimestamp {
+    NtpTimestamp::from_seconds_nanos_since_ntp_era(3_900_000_000, 250_000_000)
+}
+
+/// One real `SockSourceTask` on its own current-thread runtime, with a constant clock and a
+/// recording controller, plus a connected sender socket (also used by C05).
+pub(super) struct Rig {
+    rt: tokio::runtime::Runtime,
+    sock: tokio::net::UnixDatagram,
+    rx: tokio::sync::mpsc::UnboundedReceiver<Measurement>,
+    handle: tokio::task::JoinHandle<()>,
+    pub(super) index: ClockId,
+    path: PathBuf,
+    sentinel: [u8; SAMPLE_SIZE],
+    pub(super) stalls: u32,
+}
+
+fn scratch_dir() -> PathBuf {
+    PathBuf::from(format!("/verif/work/c40-{}", std::process::id()))
+}
+
+impl Rig {
+    fn new(name: &str) -> Rig {
+        Rig::new_in(&scratch_dir(), name, t0())
+    }
+
+    /// Socket file `dir/name`; the task's clock always answers `now`.
+    pub(super) fn new_in(dir: &std::path::Path, name: &str, now: NtpTimestamp) -> Rig {
+        std::fs::create_dir_all(dir).expect("scratch dir");
+        let path = dir.join(name);
+        let rt = tokio::runtime::Builder::new_current_thread()
+            .enable_all()
+            .build()
+            .expect("runtime");
+        let index = ClockId::new();
+        let p2 = path.clone();
+        let (handle, sock, rx) = rt.block_on(async move {
+            let (mtx, mrx) = tokio::sync::mpsc::unbounded_channel();
+            let (sys_tx, _sys_rx) = tokio::sync::mpsc::channel(1);
+            let handle = SockSourceTask::<FixedClock, Recorder>::spawn(
+                index,
+                p2.clone(),
+                FixedClock(now),
+                SourceChannels {
+                    msg_for_system_sender: sys_tx,
+                    source_snapshots: Arc::new(RwLock::new(HashMap::new())),
+                },
+                OneWaySource::new(Recorder { tx: mtx }),
+            );
+            let sock = tokio::net::UnixDatagram::unbound().expect("unbound");
+            sock.connect(&p2).expect("connect");
+            (handle, sock, mrx)
+        });
+        Rig {
+            rt,
+            sock,
+            rx,
+            handle,
+            index,
+            path,
+            sentinel: sample_bytes(SENTINEL_OFFSET.to_bits(), 0, 0, MAGIC),
+            stalls: 0,
+        }
+    }
+
+    /// Send one datagram followed by the sentinel; return the measurements the task
+    /// produced for the datagram. `Err` = the task crashed or stalled.
+    pub(super) fn run_case(&mut self, dgram: &[u8]) -> Result<Vec<Measurement>, String> {
+        let Rig { rt, sock, rx, handle, sentinel, .. } = self;
+        rt.block_on(async {
+            sock.send(dgram).await.map_err(|e| format!("send failed: {e}"))?;
+            sock.send(&sentinel[..]).await.map_err(|e| format!("send failed: {e}"))?;
+            let mut out = Vec::new();
+            loop {
+                match tokio::time::timeout(std::time::Duration::from_secs(3), rx.recv()).await {
+                    Ok(Some(m)) => {
+                        let d = (m.sender_ts - m.receiver_ts).to_seconds().abs();
+                        // (`to_seconds` divides by 2^32-1, so allow a relative 2^-32 error)
+                        if (d - SENTINEL_OFFSET).abs() < 1e-3 {
+                            return Ok(out);
+                        }
+                        out.push(m);
+                    }
+                    Ok(None) => return Err("task ended (controller dropped)".to_string()),
+                    Err(_) => {
+                        return Err(if handle.is_finished() {
+                            "task finished/panicked".to_string()
+                        } else {
+                            "sentinel sample not processed within 3 s".to_string()
+                        });
+                    }
+                }
+            }
+        })
+    }
+}
+
+impl Drop for Rig {
+    fn drop(&mut self) {
+        self.handle.abort();
+        std::fs::remove_file(&self.path).ok();
+    }
+}
+
+fn fmt_measurements(ms: &[Measurement]) -> String {
+    ms.iter()
+        .map(|m| {
+            format!(
+                "{{off={:?} recv_is_now={} leap={:?} sender_id_ok rd={:?} rdisp={:?}}}",
+                (m.sender_ts - m.receiver_ts).to_seconds(),
+                m.receiver_ts == t0(),
+                m.leap,
+                m.root_delay,
+                m.root_dispersion
+            )
+        })
+        .collect::<Vec<_>>()
+        .join(",")
+}
+
+/// Check what the task did with `dgram` (whose leading bytes carry `f`) against the statement.
+fn socket_case(ctx: &Ctx, rig: &mut Rig, dgram: &[u8], f: &Fields) -> String {
+    let trace = format!("s:{}", common::hex(dgram));
+    let want = expected(Some(dgram.len()), f);
+    let got = match rig.run_case(dgram) {
+        Ok(ms) => ms,
+        Err(e) => {
+            rig.stalls += 1;
+            ctx.violation(
+                "C40:task-crashed",
+                format!("SockSourceTask stopped working after a {}-byte datagram: {e}", dgram.len()),
+                trace.clone(),
+            );
+            return format!("stalled: {e}");
+        }
+    };
+    if got.len() > 1 {
+        ctx.violation(
+            "C40:duplicate-measurement",
+            format!("{} measurements for one datagram", got.len()),
+            trace.clone(),
+        );
+    }
+    match (got.first(), want) {
+        (Some(_), Err(why)) => ctx.violation(
+            &format!("C40:{why}-accepted"),
+            format!(
+                "{}-byte datagram became a measurement although {why} (offset {:?} = {:#018x}, pulse {}, magic {:#x}): {}",
+                dgram.len(), f64::from_bits(f.offset_bits), f.offset_bits, f.pulse, f.magic, fmt_measurements(&got)
+            ),
+            trace.clone(),
+        ),
+        (None, Ok(())) => ctx.violation(
+            "C40:valid-sample-rejected",
+            format!("well-formed 40-byte sample produced no measurement: {f:?}"),
+            trace.clone(),
+        ),
+        (Some(m), Ok(())) => {
+            ctx.inc("socket_measurements");
+            match m.leap {
+                NtpLeapIndicator::NoWarning => ctx.inc("leap_nowarning"),
+                NtpLeapIndicator::Leap61 => ctx.inc("leap_61"),
+                NtpLeapIndicator::Leap59 => ctx.inc("leap_59"),
+                _ => ctx.inc("leap_unknown"),
+            }
+            if m.receiver_ts != t0() {
+                ctx.violation(
+                    "C40:receiver-ts-not-local-now",
+                    format!("receiver_ts {:?} != clock.now() {:?}", m.receiver_ts, t0()),
+                    trace.clone(),
+                );
+            }
+            if m.sender_id != rig.index || m.receiver_id != ClockId::SYSTEM {
+                ctx.violation("C40:measurement-ids", "wrong sender/receiver id", trace.clone());
+            }
+            // The measurement must carry the sample's offset; its SIGN convention (remote - local)
+            // is property C05's business (see c05.rs), here only the magnitude is compared.
+            let off = f64::from_bits(f.offset_bits);
+            let measured = (m.sender_ts - m.receiver_ts).to_seconds();
+            let two30 = 1_073_741_824.0;
+            if off.abs() <= two30 {
+                let tol = 1e-9 * off.abs() + 1.0 / 2_147_483_648.0;
+                if (measured.abs() - off.abs()).abs() > tol {
+                    ctx.violation(
+                        "C40:offset-value",
+                        format!("sample offset {off:?} s but the measurement has |sender_ts - receiver_ts| = {:?} s", measured.abs()),
+                        trace.clone(),
+                    );
+                }
+            } else if measured.abs() < two30 * 0.999 {
+                ctx.violation(
+                    "C40:offset-value",
+                    format!("huge sample offset {off:?} s became sender_ts - receiver_ts = {measured:?} s"),
+                    trace.clone(),
+                );
+            }
+        }
+        (None, Err(_)) => ctx.inc("socket_rejections"),
+    }
+    format!("measurements=[{}] want_accept={}", fmt_measurements(&got), want.is_ok())
+}
+
+fn run_socket(ctx: &Ctx) {
+    let thorough = !ctx.quick();
+    let offs = offsets(thorough);
+    let mags = magics();
+    let pulses: [i32; 3] = [0, 1, -1];
+    // family A: length x magic x pulse x offset (leap 0; quick) / x leap (thorough)
+    let leaps_a: &[i32] = if thorough { &LEAPS } else { &[0] };
+    let radix_a = [MAX_LEN + 1, mags.len(), pulses.len(), offs.len(), leaps_a.len()];
+    let total_a: u64 = radix_a.iter().map(|r| *r as u64).product();
+    // family B (quick only; thorough has it inside A): length x offset x leap != 0, magic/pulse valid
+    let radix_b = [MAX_LEN + 1, offs.len(), LEAPS.len() - 1];
+    let total_b: u64 = if thorough { 0 } else { radix_b.iter().map(|r| *r as u64).product() };
+    let total = total_a + total_b;
+    {
+        // canonical minimal witnesses first (sequential, one rig): see run_direct
+        let mut rig = Rig::new("w.sock");
+        let half = 0.5f64.to_bits();
+        for (len, bits) in [
+            (40usize, half),
+            (40, (-1.0f64).to_bits()),
+            (40, 0x7ff8_0000_0000_0000u64),
+            (40, 0x7ff0_0000_0000_0000),
+            (40, 0xfff0_0000_0000_0000),
+            (41, half),
+            (64, half),
+            (39, half),
+        ] {
+            let f = Fields { offset_bits: bits, pulse: 0, leap: 0, magic: MAGIC };
+            let sample = sample_bytes(f.offset_bits, f.pulse, f.leap, f.magic);
+            let obs = socket_case(ctx, &mut rig, &datagram(&sample, len), &f);
+            ctx.inc("evaluations");
+            ctx.inc("socket_cases");
+            ctx.add("transitions", 2);
+            ctx.sample(format!("socket len={len} offset={:?} pulse=0 magic=ok -> {obs}", f64::from_bits(bits)));
+        }
+    }
+    let next_rig = std::sync::atomic::AtomicU64::new(0);
+    common::par_for_with(
+        total,
+        512,
+        || {
+            let k = next_rig.fetch_add(1, std::sync::atomic::Ordering::Relaxed);
+            Rig::new(&format!("t{k}.sock"))
+        },
+        |rig, i| {
+            if rig.stalls >= 3 {
+                ctx.inc("socket_cases_skipped_after_stall");
+                return;
+            }
+            let (len, f, key) = if i < total_a {
+                let mut x = i as usize;
+                let mut idx = [0usize; 5];
+                for k in (0..5).rev() {
+                    idx[k] = x % radix_a[k];
+                    x /= radix_a[k];
+                }
+                (
+                    idx[0],
+                    Fields { offset_bits: offs[idx[3]], pulse: pulses[idx[2]], leap: leaps_a[idx[4]], magic: mags[idx[1]] },
+                    ("sa", idx),
+                )
+            } else {
+                let mut x = (i - total_a) as usize;
+                let mut idx = [0usize; 5];
+                for k in (0..3).rev() {
+                    idx[k] = x % radix_b[k];
+                    x /= radix_b[k];
+                }
+                (
+                    idx[0],
+                    Fields { offset_bits: offs[idx[1]], pulse: 0, leap: LEAPS[idx[2] + 1], magic: MAGIC },
+                    ("sb", idx),
+                )
+            };
+            let sample = sample_bytes(f.offset_bits, f.pulse, f.leap, f.magic);
+            let dgram = datagram(&sample, len);
+            // fields as the receiver can see them (a truncated datagram does not carry all)
+            socket_case(ctx, rig, &dgram, &f);
+            ctx.inc("socket_cases");
+            ctx.inc("evaluations");
+            ctx.add("transitions", 2); // datagram + sentinel, both through the real task
+            if failed_conditions(Some(len), &f) <= 1 {
+                ctx.distinct(common::hash_of(&key));
+            }
+        },
+    );
+    if ctx.get("socket_cases_skipped_after_stall") > 0 {
+        ctx.cap_hit("socket sweep abandoned on some workers after 3 task stalls (see C40:task-crashed)");
+    }
+}
+
+fn parse_fields(b: &[u8]) -> Fields {
+    let mut s = [0u8; SAMPLE_SIZE];
+    for (i, x) in b.iter().take(SAMPLE_SIZE).enumerate() {
+        s[i] = *x;
+    }
+    Fields {
+        offset_bits: u64::from_le_bytes(s[16..24].try_into().unwrap()),
+        pulse: i32::from_le_bytes(s[24..28].try_into().unwrap()),
+        leap: i32::from_le_bytes(s[28..32].try_into().unwrap()),
+        magic: i32::from_le_bytes(s[36..40].try_into().unwrap()),
+    }
+}
+
+fn replay(ctx: &Ctx, trace: &str) -> String {
+    let parts: Vec<&str> = trace.split(':').collect();
+    match parts.as_slice() {
+        ["d", claimed, hex] => {
+            let bytes = common::unhex(hex).unwrap_or_default();
+            let f = parse_fields(&bytes);
+            let claimed = claimed.parse::<usize>().ok();
+            direct_case(ctx, claimed, &f)
+        }
+        ["s", hex] => {
+            let bytes = common::unhex(hex).unwrap_or_default();
+            let f = parse_fields(&bytes);
+            let mut rig = Rig::new("replay.sock");
+            let r = socket_case(ctx, &mut rig, &bytes, &f);
+            drop(rig);
+            std::fs::remove_dir_all(scratch_dir()).ok();
+            std::fs::remove_dir("/verif/work").ok();
+            r
+        }
+        _ => format!("unparseable trace {trace:?}"),
+    }
+}
+
+#[test]
+fn check() {
+    let ctx = Ctx::new("C40");
+    if let Some(t) = common::replay_trace() {
+        let a = replay(&ctx, &t);
+        let b = replay(&ctx, &t);
+        common::report_replay("C40", &a, &b, ctx.violation_count() > 0);
+        return;
+    }
+    ctx.rule(
+        "(d) deserialize_sample over recv result {io error, Ok(0..=64)} x magic {ok, 32 single-bit corruptions} x pulse \
+         {0,1,-1,i32::MIN,0x100,0x1000000} x offset bit patterns {21 finite boundary values incl. subnormals, +-inf, 5 NaN \
+         patterns; thorough: + 253 more finite values} x leap {0,1,2,3,4,-1}; (s) real datagrams of every length 0..=64 \
+         (truncated / extended sample) x magic x pulse {0,1,-1} x offsets (x leap in thorough; quick: leap varied only for \
+         otherwise valid fields) sent over a UnixDatagram to the real SockSourceTask, each followed by a sentinel sample. \
+         Distinct & non-trivial = a case in which at most one of the four acceptance conditions (size, magic, pulse, finite) fails.",
+    );
+    ctx.assume("gpsd wire format: 40-byte struct sock_sample (LP64), magic 0x534f434b, offset = real - clock in seconds (gpsd timehint.c / chrony refclock_sock.c)");
+    ctx.assume("Unix datagrams from one connected sender to one receiver are delivered in order (used to delimit the task's reaction with a sentinel sample)");
+    ctx.assume("the clock handed to the task is constant, so receiver_ts must equal it exactly");
+    ctx.note(
+        "code_constants",
+        &format!("SOCK_SAMPLE_SIZE={} SOCK_MAGIC={:#x}", probe::CODE_SAMPLE_SIZE, probe::CODE_MAGIC),
+    );
+    run_direct(&ctx);
+    run_socket(&ctx);
+    std::fs::remove_dir_all(scratch_dir()).ok();
+    std::fs::remove_dir("/verif/work").ok(); // only succeeds if nobody else uses it
+    ctx.set("states", ctx.get("direct_cases") + ctx.get("socket_cases"));
+    ctx.exhaustive(ctx.get("socket_cases_skipped_after_stall") == 0);
+    ctx.finish();
+}
